@@ -225,6 +225,13 @@ def _pattern_stream(reader: str, cfg, pattern: str, total: int, rng: random.Rand
             unit = FL + bytes(rng.randrange(256) for _ in range(5))
         elif pattern == "valid_frames":
             unit = FL + w
+        elif pattern == "segmented_frames":           # valid frames with the segmentation bit set, every one different
+            out, k = bytearray(), 0
+            while len(out) < total:
+                f = H.mkframe(seg=True, info=b"%09d" % k)
+                out += FL + (H.stuff(f) if cfg[0] else f)
+                k += 1
+            return bytes(out[:total])
         elif pattern == "distinct_frames":            # every frame different (running number in addresses and payload)
             out, k = bytearray(), 0
             while len(out) < total:
@@ -242,6 +249,10 @@ def _pattern_stream(reader: str, cfg, pattern: str, total: int, rng: random.Rand
             return FL + fr + b"\x55" + FL * total
         elif pattern == "header_then_flags":
             return FL + fr[:8] + FL * total
+        elif pattern == "len0_header_then_endless":     # a header that announces length 0, with a correct header check sequence, then anything
+            hdr = bytes([0xA0, 0x00, 0x03, 0x03, 0x13])
+            c = H._fcs(hdr)
+            return FL + hdr + bytes([c & 0xFF, c >> 8]) + bytes(rng.choice(b"\x01\x02\x7e\x10\x00\x55") for _ in range(total))
         elif pattern == "escape_run":                 # an opening flag, then nothing but escape octets
             return FL + ES * total
         elif pattern == "escape_dense_frame":         # never-ending frame made of escapes and escaped octets
@@ -284,6 +295,10 @@ def _pattern_stream(reader: str, cfg, pattern: str, total: int, rng: random.Rand
         return bytes(rng.choice(b"abc 123") for _ in range(total))
     elif pattern == "ident_then_no_lf":        # a readout starts, then the line end never comes again (CR only)
         return b"/ABC5id\r\n" + (b"1-0:1.8.0(00001.000*kWh)\r" * (total // 25 + 1))[:total]
+    elif pattern == "ident_escapes_endless":    # "/KAM5" followed by mode escape sequences for ever, never a line end
+        return b"/KAM5" + (b"\\2" * (total // 2 + 1))[:total]
+    elif pattern == "long_lines_no_bang":       # an identification line, then 1500-octet data lines for ever
+        return b"/ABC5id\r\n" + ((b"0-0:96.13.0(" + b"4" * 1480 + b")\r\n") * (total // 1490 + 1))[:total]
     elif pattern == "slash_repeated":
         unit = b"/"
     else:
@@ -292,9 +307,9 @@ def _pattern_stream(reader: str, cfg, pattern: str, total: int, rng: random.Rand
 
 
 HDLC_PATTERNS = ["all_flags", "flag_junk", "valid_frames", "never_ending_frame", "random", "esc_flag", "overshoot_then_flags", "header_then_flags",
-                 "escape_run", "escape_dense_frame", "distinct_frames"]
+                 "escape_run", "escape_dense_frame", "distinct_frames", "len0_header_then_endless", "segmented_frames"]
 P1_PATTERNS = ["slash_lines_no_bang", "slash_no_lf", "ident_endless_lines", "valid_readouts", "random_ascii", "random", "no_lf_no_slash",
-               "slash_repeated", "ident_then_no_lf", "distinct_readouts", "distinct_ident_lines"]
+               "slash_repeated", "ident_then_no_lf", "distinct_readouts", "distinct_ident_lines", "ident_escapes_endless", "long_lines_no_bang"]
 
 
 def _mem_job(args):
